@@ -131,9 +131,9 @@ func main() {
 		fmt.Fprintf(os.Stderr, "driver: build failed (tooling, not a verdict): %v\n%s\n", err, out)
 		return
 	}
-	// the real, uninstrumented binary for the process-level parts (C07, C08)
+	// the real, uninstrumented binary for the process-level parts (C06, C07, C08)
 	desyncBin := ""
-	if id == "C07" || id == "C08" {
+	if id == "C06" || id == "C07" || id == "C08" {
 		desyncBin = filepath.Join(scratch, "desync")
 		bc := exec.Command("go", "build", "-o", desyncBin, "./cmd/desync")
 		bc.Dir = repo
